@@ -464,6 +464,18 @@ RETCODE adfFileFlush ( struct AdfFile * const file )
     }
 
 /*printf("pos=%ld\n",file->pos);*/
+    /* the header buffered since the open is out of date in the one field that
+       operations on other entries change on disk: the hash-chain link (an entry
+       created or deleted behind this one in the same chain) */
+    struct bEntryBlock onDisk;
+    rc = adfReadEntryBlock ( file->volume, file->fileHdr->headerKey, &onDisk );
+    if ( rc != RC_OK ) {
+        adfEnv.eFct ( "adfFlushfile : error reading file header block %d",
+                      file->fileHdr->headerKey );
+        return rc;
+    }
+    file->fileHdr->nextSameHash = onDisk.nextSameHash;
+
     adfTime2AmigaTime ( adfGiveCurrentTime(),
                         &(file->fileHdr->days),
                         &(file->fileHdr->mins),
